@@ -398,11 +398,13 @@ fn probe(which: &'static str) -> Result<(), Failure> {
         skipped: false,
         config: false,
         compactable: false,
+        bitstore: false,
+        bitorder: false,
     };
     let (params, body, args): (Vec<ParamDecl>, Fields, Vec<Ty>) = match which {
         "rust-value:cow-wrapped-like-a-struct" => (
             vec![],
-            Fields::Named(vec![fld(Some("a"), Ty::Cow(Box::new(Ty::Prim(Prim::Str)))), fld(Some("b"), Ty::Cow(Box::new(Ty::Tuple(vec![]))))]),
+            Fields::Named(vec![fld(Some("a"), Ty::Cow(Box::new(Ty::StrSlice))), fld(Some("b"), Ty::Cow(Box::new(Ty::Tuple(vec![]))))]),
             vec![],
         ),
         "rust-value:u16-ident" => (vec![], Fields::Named(vec![fld(Some("a"), Ty::Prim(Prim::U16))]), vec![]),
@@ -419,6 +421,7 @@ fn probe(which: &'static str) -> Result<(), Failure> {
         _ => (vec![p("T")], Fields::Unit, vec![Ty::Prim(Prim::Bool)]),
     };
     let prog = Program {
+        name_style: 0,
         defs: vec![Def {
             path: vec!["krate".into(), "Probe".into()],
             params,
